@@ -213,7 +213,23 @@ func c04Check(ctx *vfCtx, c c04Case) {
 			return
 		}
 	}
-	if vfCatch(ctx, "C04", func() { ev, err = impl.NewEventFromUntrustedJSON(append([]byte(nil), wire...)) }) {
+	// (events of another kind come first: one the parser refuses, one whose hash does not match - what
+	// is handed out for THIS event does not depend on them)
+	if len(wire)%2 == 0 {
+		ctx.Class("after-other-events-were-parsed")
+		for _, other := range []string{`{"type":7}`, `{"type":"m.room.member","content":[],"state_key":"x","sender":"@x:y","room_id":"!r:y"`,
+			`{"type":"m.room.message","sender":"@left:behind.example","room_id":"!left:behind.example","content":{"body":"left behind"},"depth":1,"origin_server_ts":1,"prev_events":[],"auth_events":[],"hashes":{"sha256":"AAAA"},"signatures":{},"unsigned":{"left":"behind"}}`} {
+			if vfCatch(ctx, "C04/other-event", func() { _, _ = impl.NewEventFromUntrustedJSON([]byte(other)) }) {
+				return
+			}
+		}
+	}
+	given := append([]byte(nil), wire...)
+	if vfCatch(ctx, "C04", func() { ev, err = impl.NewEventFromUntrustedJSON(given) }) {
+		return
+	}
+	if string(given) != string(wire) {
+		ctx.Fail("C04/input-overwritten", "NewEventFromUntrustedJSON changed the bytes it was given: %q now reads %q", wire, given)
 		return
 	}
 	if verr, ok := err.(EventValidationError); ok && verr.Persistable && ev != nil {
